@@ -122,6 +122,46 @@ def nested_entry_routing(group):
     return EqObligation(f"C06/_set_derivatives/ensures.Params_with_a_nested_eq_params_entry[group={group}]", build, [DK + "_set_derivatives"])
 
 
+def hyper_routing():
+    """a hyper-network wrapper: the network output depends on the designated equation parameter through the generated
+    weights; a term whose keys select that parameter contributes its full derivative (through the network), a term whose
+    keys do not contributes zero.  ODE loss, initial-condition term, symbolic flag."""
+    from jinns.utils._hyperpinn import HYPERPINN
+    from jinns.utils._pinn import _MLP
+    from jinns.data._Batchs import ODEBatch
+    def build():
+        hid = 2
+        inner = _MLP(key=jax.random.PRNGKey(1), eqx_list=((eqx.nn.Linear, 1, hid), (jnp.tanh,), (eqx.nn.Linear, hid, 1)))
+        total = hid + hid + hid + 1
+        H = Opaque("HR", 2, total)
+        u = HYPERPINN(mlp=inner, hyper_mlp=OpaqueMLP(theta=jnp.zeros((1,)), F=H), slice_solution=jnp.s_[0:1], eq_type="ODE",
+                      input_transform=ident_in, output_transform=ident_out, hyperparams=["a"], hypernet_input_size=1)
+        def fn(th, a_, t0, u0, mk):
+            def total_(a_v):
+                nn = eqx.tree_at(lambda z: z.theta, u.params_hyper, th)
+                params = Params(nn_params=nn, eq_params={"a": a_v})
+                off = Params(nn_params=False, eq_params={"a": False})
+                sel = Params(nn_params=False, eq_params={"a": mk[0]})
+                loss = mk_loss(LossODE, u=u, dynamic_loss=None, initial_condition=(t0, u0),
+                               derivative_keys=DerivativeKeysODE(dyn_loss=off, initial_condition=sel, observations=off),
+                               loss_weights=LossWeightsODE(dyn_loss=0.0, initial_condition=1.0, observations=0.0))
+                return loss.evaluate(params, ODEBatch(temporal_batch=jnp.zeros((1,))))[0]
+            return jnp.reshape(jax.grad(total_)(a_), ())
+        def spec(th, a_, t0, u0, mk, wrong=False):
+            A = a_[()]
+            hv = [P.app("HR", j, (), [A, th[0]]) for j in range(total)]
+            W1 = [hv[0], hv[1]]; b1 = [hv[2], hv[3]]; W2 = [hv[4], hv[5]]; b2 = hv[6]
+            hdn = [P.unary("tanh", W1[i] * t0[()] + b1[i]) for i in range(hid)]
+            out = W2[0] * hdn[0] + W2[1] * hdn[1] + b2
+            term = (out - u0[0]) ** 2
+            flag = mk[0] if not wrong else P.ONE - mk[0]
+            return arr(lambda _: flag * P.diff(term, A), ())
+        return dict(fn=fn, spec=spec, canary=lambda *z: spec(*z, wrong=True),
+                    inputs=[Inp("th", (1,)), Inp("a", ()), Inp("t0", ()), Inp("u0", (1,)), Inp("mk", (1,), "bool")])
+    return EqObligation("C06/LossODE.evaluate/ensures.gradient_routing_through_a_hyper_network[initial_condition,group=a]", build,
+                        ["jinns.loss._LossODE:LossODE.evaluate", DK + "_set_derivatives", "jinns.utils._hyperpinn:HYPERPINN.eval_nn"])
+
+
 def system_routing(kind, masks, group):
     """per-unknown derivative keys of a system loss: masks[(unknown, term)] -> bool (network parameters of that unknown)"""
     from contracts.c13 import Sys
@@ -395,6 +435,7 @@ def obligations(tier):
             obs.append(o)
     for g_ in ("th", "r", "K", "c"):
         obs.append(nested_entry_routing(g_))
+    obs.append(hyper_routing())
     obs.append(FnObligation("C06/bounded/unselected_parameter_with_singular_sensitivity_gets_exactly_zero", singular_sensitivity,
                             [DK + "_set_derivatives"]))
     obs.append(FnObligation("C06/mask_builders/bounded.exhaustive_key_sets_0..3", mask_builders,
